@@ -494,6 +494,8 @@ func parseSearchQuery(query, countryCode string, withLogin bool) ([][]string, []
 		quo bool
 		// Current token is a quoted string
 		unquote bool
+		// The previous character closed a quoted string
+		closed bool
 		// Start of the current token
 		start int
 		// End of the current token
@@ -525,18 +527,28 @@ func parseSearchQuery(query, countryCode string, withLogin bool) ([][]string, []
 			}
 		}
 
+		if ctx.closed {
+			if curr == QUO || curr == ORD {
+				// Reject strings like "a"b
+				return nil, nil, fmt.Errorf("missing operator at or near %d", pos)
+			}
+			ctx.closed = false
+		}
+
+		// The current character opens a quoted string.
+		var openQuote bool
 		if curr == QUO {
 			if ctx.quo {
 				// End of the quoted string. Close the quote.
 				ctx.quo = false
+				ctx.closed = true
 			} else {
 				if prev == ORD {
 					// Reject strings like a"b
 					return nil, nil, fmt.Errorf("missing operator at or near %d", pos)
 				}
-				// Start of the quoted string. Open the quote.
-				ctx.quo = true
-				ctx.unquote = true
+				// Start of the quoted string. The quote is opened after the preceding token is emitted.
+				openQuote = true
 			}
 			curr = ORD
 		}
@@ -609,6 +621,12 @@ func parseSearchQuery(query, countryCode string, withLogin bool) ([][]string, []
 			ctx.preOp = ctx.postOp
 			ctx.postOp = NONE
 			ctx.unquote = false
+		}
+
+		if openQuote {
+			// Open the quote.
+			ctx.quo = true
+			ctx.unquote = true
 		}
 
 		prev = curr
